@@ -8,8 +8,9 @@
 //!
 //! Verdict rules specific to this mode:
 //!  * expected response *missing* on UDP: inconclusive aspect, only counted (loopback may drop);
-//!  * expected response missing on TCP while the connection stayed usable: violation (count);
-//!    connection closed by the server (e.g. after a malformed frame): counted, not judged;
+//!  * expected response missing on TCP although a later message on the same connection was
+//!    answered (one connection is served in order): violation (count); connection closed by the
+//!    server or sync reached only on the other transport: counted, not judged;
 //!  * duplicates, responses to silent requests, mismatches (id/question/rcode/zone), responses
 //!    carrying an id no request of the batch used, a panic on any server task, a listener task that
 //!    ended before shutdown, or no answer to the probe on both transports: violations.
@@ -38,8 +39,9 @@ struct Sent {
     proto: Protocol,
     kind: String,
     is_probe: bool,
-    /// TCP connection was lost before the sync point
-    conn_lost: bool,
+    /// TCP only: a later message on the SAME connection was answered, so (requests on one
+    /// connection being handled in order) a response still missing is really missing
+    tcp_ordered_sync: bool,
     responses: Vec<Vec<u8>>,
 }
 
@@ -207,10 +209,9 @@ async fn batch(rep: &mut Reporter, cfg: &Config, ip: IpAddr, reqs: Vec<(String, 
             by_id.insert(id, sent.len());
         }
         let from = cl.inbox.len();
-        let mut me = Sent { bytes, proto, kind, is_probe: false, conn_lost: false, responses: vec![] };
-        if cl.send(proto, &me.bytes).await.is_err() {
-            me.conn_lost = true;
-        }
+        let me = Sent { bytes, proto, kind, is_probe: false, tcp_ordered_sync: false, responses: vec![] };
+        let sent_ok = cl.send(proto, &me.bytes).await.is_ok();
+        let conn_epoch = cl.reconnects;
         let req_idx = sent.len();
         sent.push(me);
         // sync: probe on the same transport; fall back to the other one before declaring death
@@ -220,24 +221,27 @@ async fn batch(rep: &mut Reporter, cfg: &Config, ip: IpAddr, reqs: Vec<(String, 
             let id = fresh_id(&by_id);
             let pb = probe_bytes(cfg, id, format!("probe-{n}-{attempt}").as_bytes());
             by_id.insert(id, sent.len());
-            sent.push(Sent { bytes: pb.clone(), proto: p, kind: "probe".into(), is_probe: true, conn_lost: false, responses: vec![] });
+            sent.push(Sent { bytes: pb.clone(), proto: p, kind: "probe".into(), is_probe: true, tcp_ordered_sync: false, responses: vec![] });
             let pi = sent.len() - 1;
             if cl.send(p, &pb).await.is_err() {
-                sent[pi].conn_lost = true;
-                sent[req_idx].conn_lost |= attempt == 0;
                 continue;
             }
             match cl.wait_for(p, id, from, Duration::from_millis(if attempt == 0 { 400 } else { 1000 })).await {
                 Ok(true) => {
                     synced = true;
+                    if matches!(p, Protocol::Tcp) && matches!(proto, Protocol::Tcp) && sent_ok && cl.reconnects == conn_epoch {
+                        // same connection as the request: everything before the probe was handled
+                        sent[req_idx].tcp_ordered_sync = true;
+                        for earlier in sent[req_idx + 1..pi].iter_mut().filter(|e| matches!(e.proto, Protocol::Tcp)) {
+                            earlier.tcp_ordered_sync = true;
+                        }
+                    }
                     break;
                 }
                 Ok(false) => {
                     rep.count(if matches!(p, Protocol::Tcp) { "socket/probe_timeout_tcp" } else { "socket/probe_timeout_udp" });
                 }
                 Err(()) => {
-                    sent[pi].conn_lost = true;
-                    sent[req_idx].conn_lost |= attempt == 0;
                     rep.count("socket/tcp_closed_by_server");
                 }
             }
@@ -289,8 +293,8 @@ async fn batch(rep: &mut Reporter, cfg: &Config, ip: IpAddr, reqs: Vec<(String, 
                 rep.count("socket/udp_response_missing_inconclusive");
                 continue;
             }
-            if s.conn_lost {
-                rep.count("socket/tcp_conn_lost_no_response");
+            if !s.tcp_ordered_sync {
+                rep.count("socket/tcp_no_response_unsynced_inconclusive");
                 continue;
             }
         }
